@@ -11,7 +11,7 @@ Import ListNotations.
 Open Scope nat_scope.
 
 Section C17.
-Context {D SY : Type} (dops : dict_ops D) (sops : syl_ops SY) (conv : conv_fn).
+Context {D SY : Type} (dops : dict_ops D) (sops : syl_ops SY) (conv : conv_fn D).
 
 (* ---- reset ---- *)
 (* Reset issued in EVERY editor state (no hypothesis on e: entering, typing a syllable, list
